@@ -1319,3 +1319,18 @@ def _horner(coeffs, v):
     for c in coeffs:
         out = S.add(S.mul(out, v), c)
     return out
+
+
+@lib('numpy.fft.fft2', 'abstract')
+def np_fft2(ctx, a, s=None, axes=None, norm=None):
+    """Abstract: a fresh array of the same shape; the normalisation keyword is recorded as a ghost."""
+    a = arr(ctx, a)
+    ctx.__dict__.setdefault('ghost_fft_calls', []).append({'fn': 'fft2', 'norm': norm, 'input': a.snapshot()})
+    return A.fresh_array(ctx, 'fft2', a.shape, 'complex')
+
+
+@lib('numpy.fft.ifft2', 'abstract')
+def np_ifft2(ctx, a, s=None, axes=None, norm=None):
+    a = arr(ctx, a)
+    ctx.__dict__.setdefault('ghost_fft_calls', []).append({'fn': 'ifft2', 'norm': norm, 'input': a.snapshot()})
+    return A.fresh_array(ctx, 'ifft2', a.shape, 'complex')
